@@ -989,3 +989,32 @@ Theorem regression_negation_changes_order :
   select_type (neg_witness (100 + 81)) = Ok [0%nat; 1%nat] /\
   map f_spec (t_feats (neg_witness (100 - 81))) = map f_spec (t_feats (neg_witness (100 + 81))).
 Proof. repeat split; vm_compute; reflexivity. Qed.
+
+(* ---------------------------------------------------------------------------------------- *)
+(* colsample < 1: the samples are a partition of the shuffled feature list                     *)
+(* ---------------------------------------------------------------------------------------- *)
+Lemma firstn_plus {A} a b (l : list A) : firstn (a + b) l = firstn a l ++ firstn b (skipn a l).
+Proof.
+  revert l. induction a as [|a IH]; intros l; [reflexivity|].
+  destruct l as [|x t]; cbn [Nat.add firstn skipn app].
+  - rewrite firstn_nil. reflexivity.
+  - f_equal. apply IH.
+Qed.
+
+Lemma slices_concat {A} c m (l : list A) :
+  List.concat (map (fun i => firstn c (skipn (c * i) l)) (seq 0 m)) = firstn (c * m) l.
+Proof.
+  induction m as [|m IH].
+  - rewrite Nat.mul_0_r. reflexivity.
+  - rewrite seq_S, map_app, concat_app, IH. cbn [map List.concat Nat.add].
+    rewrite app_nil_r, Nat.mul_succ_r. symmetry. apply firstn_plus.
+Qed.
+
+Theorem col_samples_partition {A} c k (l : list A) : List.concat (col_samples c k l) = l.
+Proof.
+  unfold col_samples. rewrite concat_app, slices_concat. cbn [List.concat].
+  rewrite app_nil_r. apply firstn_skipn.
+Qed.
+
+Theorem col_samples_count {A} c k (l : list A) : List.length (col_samples c k l) = S (k - 1).
+Proof. unfold col_samples. rewrite app_length, map_length, seq_length. cbn [List.length]. lia. Qed.
